@@ -720,11 +720,15 @@ def main(argv):
     cands = []
     for st in lvl1:
         cands += ty.unary(st[0], st[1], scalars, variables)
-    partners = atoms0 if quick else atoms0 + [(st[0], st[1]) for st in lvl1]
     for st in lvl1:
-        for y, tyy in partners:
+        for y, tyy in atoms0:
             cands += ty.binary(st[0], st[1], y, tyy, wpairs)
             cands += ty.binary(y, tyy, st[0], st[1], wpairs)
+    core2 = set(cands)  # level-2 candidates built from a level-1 state and an atom (or unary)
+    if not quick:
+        for st in lvl1:
+            for st2 in lvl1:
+                cands += ty.binary(st[0], st[1], st2[0], st2[1], WPAIRS[1:4])
     cands = sorted(set(cands), key=repr)
     run.bounds["level2_candidates_well_typed"] = len(cands)
     lvl2 = dedup(run_level(cands, U, run, sample_every=2000), seen, run)
@@ -735,14 +739,19 @@ def main(argv):
         "operand of Action only against atoms and results of Action/Adjoint/+"
     )
     if not quick:
-        comb = "level 2: unary ops on level-1 states; binary ops on (level-1 state, level<=1 state or atom) in both orders"
+        comb = (
+            "level 2: unary ops on level-1 states; binary ops on (level-1 state, atom) in both orders with all weight pairs, "
+            "on (level-1 state, level-1 state) with weight pairs (2,-1),(0,2),(0.5,k)"
+        )
         comb += "; a Coefficient as LEFT operand of Action only against atoms and results of Action/Adjoint/+"
         # ---- level 3 (comb): unary ops on level-2 states, Action/action/+ of level-2 states with atoms
         for st in lvl2:
             ty.register(st[0], st[1])
         cands = []
         l3_atoms = [(r, t) for r, t in atoms0 if r[1] in L3_ATOMS]
-        for st in lvl2:
+        lvl2_core = [st for st in lvl2 if st[0] in core2]
+        run.bounds["level3_base_states"] = len(lvl2_core)
+        for st in lvl2_core:
             cands += ty.unary(st[0], st[1], ["2", "0", "k"], variables)
             for y, tyy in l3_atoms:
                 cands += ty.binary(st[0], st[1], y, tyy, WPAIRS[1:2], ops=("add", "Act", "act", "fs2"))
@@ -753,7 +762,8 @@ def main(argv):
         levels.append(len(lvl3))
         all_states += lvl3
         comb += (
-            "; level 3 (comb): unary ops (scalars 2,0,k) on level-2 states; state+atom, atom-state, FormSum((state,2),(atom,-1)), "
+            "; level 3 (comb) over the level-2 states built from a level-1 state and an atom or by a unary op: "
+            "unary ops (scalars 2,0,k); state+atom, atom-state, FormSum((state,2),(atom,-1)), "
             "Action/action(state, atom) and (atom, state) for atoms " + ",".join(L3_ATOMS)
         )
     eq_check(all_states, U, run)
@@ -775,6 +785,7 @@ def main(argv):
         "result; non-trivial = the map denoted by the recipe is not identically zero"
     )
     run.exhaustive = True
+    run.violations = interleave(run.violations)
     import os
 
     if os.environ.get("C28_DUMP_KEYS"):  # used by the detection self-test to diff violation keys
@@ -790,6 +801,29 @@ def main(argv):
         "canonical numbering: arguments are numbered by position 0..n-1 (as Matrix, Cofunction, Adjoint and derivative do)",
     ]
     run.finish()
+
+
+def family(key):
+    """Coarse family of a violation key: kind, tag and outermost operation."""
+    kind, rest = key.split(":", 1)
+    tag = rest.rsplit(" #", 1)[1] if " #" in rest else ""
+    return (kind, tag, rest.split("(", 1)[0])
+
+
+def interleave(violations):
+    """Deterministic order in which every family appears early (only the first 200 get a replay file)."""
+    fams = {}
+    for v in sorted(violations, key=lambda v: (len(v["key"]), v["key"])):
+        fams.setdefault(family(v["key"]), []).append(v)
+    out = []
+    names = sorted(fams)
+    i = 0
+    while len(out) < len(violations):
+        for n in names:
+            if i < len(fams[n]):
+                out.append(fams[n][i])
+        i += 1
+    return out
 
 
 def _tup(x):
